@@ -70,9 +70,24 @@ func (c25) Generate(r *engine.Rand, index int, tier string) *engine.Scenario {
 	if r.Chance(1, 3) {
 		n = 3
 	}
+	shape := 0
+	switch {
+	case index%50 == 13:
+		// a crowd: a dozen instances alive at once
+		sc.Class = "interleave-crowd"
+		n = r.Range(9, 13)
+	case index%25 == 3:
+		// all instances carry cartridges of one shape (the largest images a controller takes among them)
+		sc.Class = "interleave-same-shape"
+		shape = 1 + r.Intn(len(freeShapes))
+		if r.Bool() {
+			shape = 1 + r.Intn(2)
+		}
+	}
 	sc.SetP("n", int64(n))
 	for i := 0; i < n; i++ {
 		w := randomWorkload(r)
+		w.Shape = shape
 		if r.Chance(1, 3) {
 			w.Kind = "scene" // sprites, audio: lots of shared-looking state
 			w.Video = true
@@ -81,8 +96,12 @@ func (c25) Generate(r *engine.Rand, index int, tier string) *engine.Scenario {
 		w.store(sc, fmt.Sprintf("i%d.", i))
 	}
 	total := uint64(r.Range(1, 4)) * 17556
-	sc.Cycles = total
 	gran := r.Intn(3)
+	if n > 3 {
+		total = 17556
+		gran = r.Range(1, 2)
+	}
+	sc.Cycles = total
 	sc.SetP("gran", int64(gran))
 	if r.Bool() {
 		// slow serial consumers: an instance blocks inside its writer, the others run meanwhile
